@@ -1207,9 +1207,18 @@ class Atoms:
                 angle, dihedral and improper type ids.
             structure_index_map: dictionary where key is an index in other and value is an index in
                 self, where entries only exist if the position and element of the entries are
-                identical and can be considered to be the same atom.
+                identical and can be considered to be the same atom. Negative indices count from the end, as
+                everywhere in numpy; an index outside the structure raises IndexError before anything is changed.
             verbose (bool): print debugging info.
         """
+        def plain_index(i, n):
+            if not -n <= i < n:
+                raise IndexError("index %s in structure_index_map is out of bounds for a structure of %d atoms" % (i, n))
+            return i % n
+
+        structure_index_map = {plain_index(k, len(other)): plain_index(v, len(self))
+                               for k, v in structure_index_map.items()}
+
         atom_idx_offset = len(self.positions)
         if offsets is None:
             if verbose:
